@@ -43,6 +43,9 @@ fn maps() -> Vec<Beatmap> {
         MapSpec { diff: gen::DiffPreset::D1, ..MapSpec::new(0, vec![o(Kind::Slider2, 0, PosK::Far, 0, 0), o(Kind::Circle, 1500, PosK::Far, 0, 0), o(Kind::Slider5, 2500, PosK::Far, 8, 0), o(Kind::SliderLong, 3000, PosK::Far, 0, 0)]) }.decode(),
         // #9: a long osu! map (130 objects) — size thresholds (a fast path, a cache, a registry "worth it" only for big maps)
         MapSpec { repeat: 65, ..MapSpec::new(0, vec![o(Kind::Circle, 130, PosK::Far, 0, 0), o(Kind::Slider2, 200, PosK::Near, 8, 0)]) }.decode(),
+        // #10: a very long map — 1100 circles 400 ms apart: more than 1024 non-empty strain sections (size thresholds on the
+        // strain lists themselves)
+        MapSpec { repeat: 1100, ..MapSpec::new(0, vec![o(Kind::Circle, 400, PosK::Far, 0, 0)]) }.decode(),
     ]
 }
 
@@ -170,6 +173,8 @@ fn guard_jobs() -> Vec<Vec<Step>> {
         twice(Step::Difficulty { map: 8, dst: 3, s: 0 }),
         vec![Step::Convert { map: 9, dst: 3, s: 4 }, Step::Difficulty { map: 9, dst: 3, s: 4 }],
         vec![Step::Convert { map: 9, dst: 3, s: 6 }, Step::Difficulty { map: 9, dst: 3, s: 6 }],
+        vec![Step::Difficulty { map: 10, dst: 0, s: 0 }, Step::Strains { map: 10, dst: 0, s: 0 }],
+        vec![Step::Difficulty { map: 10, dst: 1, s: 0 }, Step::Difficulty { map: 10, dst: 0, s: 1 }],
     ]
 }
 
@@ -287,7 +292,7 @@ fn main() {
         std::env::set_var("VERIF_NO_EVIDENCE", "1");
     }
     let ctx = Ctx::from_env("C20");
-    ctx.rule("(A) interference: every assignment of jobs (difficulty / performance / strains calls, gradual difficulty and gradual performance walks split into their steps; taiko and mania conversions with two different Random seeds and key mods; shared &Beatmap) from a pool to T threads and every interleaving of the threads' calls (T=2 x 3 calls: 20 schedules per assignment; T=3 x 2 calls: 90; thorough T=3 x 3: 1680) executed on real OS threads under the baton scheduler; oracle = every call returns the value it returns when its thread runs alone, shared maps unchanged. (B) hand-over: every gradual calculator that is Send in this build (all of them in the `sync` build, which the default build runs as a child) is moved between T <= 3 threads at the step boundaries: all T^n ownership sequences, n <= 4 (quick) / 5, incl. create on one thread and drop on another; oracle = the single-thread sequence. (D) shared-access preemption: 18 jobs of two calls, all 171 unordered pairs on two real threads with the pages of the library's writable statics and of the shared Beatmap structs protected; scheduling points = thread start, call boundaries, every write to a guarded region, every read of a location some job writes; every choice vector with <= 2 preemptions, each execution in a fresh process; oracle = every call returns what it returns when its job runs alone in a fresh process, also when repeated sequentially after the concurrent run. (C) free-running: the (A) job bodies on 16 unsynchronised threads for a fixed number of rounds against the sequential table — sampling, reported separately under coverage.free_running and not part of the exhaustive claim; non-trivial = schedules with more than one thread / ownership sequences that change thread");
+    ctx.rule("(A) interference: every assignment of jobs (difficulty / performance / strains calls, gradual difficulty and gradual performance walks split into their steps; taiko and mania conversions with two different Random seeds and key mods; shared &Beatmap) from a pool to T threads and every interleaving of the threads' calls (T=2 x 3 calls: 20 schedules per assignment; T=3 x 2 calls: 90; thorough T=3 x 3: 1680) executed on real OS threads under the baton scheduler; oracle = every call returns the value it returns when its thread runs alone, shared maps unchanged. (B) hand-over: every gradual calculator that is Send in this build (all of them in the `sync` build, which the default build runs as a child) is moved between T <= 3 threads at the step boundaries: all T^n ownership sequences, n <= 4 (quick) / 5, incl. create on one thread and drop on another; oracle = the single-thread sequence. (D) shared-access preemption: 20 jobs of two calls, all 210 unordered pairs on two real threads with the pages of the library's writable statics and of the shared Beatmap structs protected; scheduling points = thread start, call boundaries, every write to a guarded region, every read of a location some job writes; every choice vector with <= 2 preemptions, each execution in a fresh process; oracle = every call returns what it returns when its job runs alone in a fresh process, also when repeated sequentially after the concurrent run. (C) free-running: the (A) job bodies on 16 unsynchronised threads for a fixed number of rounds against the sequential table — sampling, reported separately under coverage.free_running and not part of the exhaustive claim; non-trivial = schedules with more than one thread / ownership sequences that change thread");
     ctx.assume("(A)/(B) switch threads at public call boundaries only; that is complete iff two calculations share no mutable location, which (D) checks on this very build: every access to the library's writable statics (found in the binary's symbol table) and to the shared Beatmap structs is intercepted, and where a job writes such a location all schedules with <= 2 preemptions at those accesses are explored. Outside every exhaustive part: heap state reached only through a pointer stored in a static, weak-memory reorderings; (C) samples those");
 
     let world = World { maps: Box::leak(maps().into_boxed_slice()), setts: setts() };
